@@ -32,15 +32,19 @@ class cpu_guard:
     """`with cpu_guard(20): node.update()` - main thread only.  ITIMER_VIRTUAL counts this process's
     own user-mode CPU time, so the bound does not depend on how loaded the machine is."""
 
+    hang_seen = False  # per process: once a call was cut, further calls get 2 s (still ~1000x a normal call)
+
     def __init__(self, seconds=20.0):
         self.seconds = seconds
 
     def __enter__(self):
         signal.signal(signal.SIGVTALRM, _cpu_hang)
-        signal.setitimer(signal.ITIMER_VIRTUAL, self.seconds)
+        signal.setitimer(signal.ITIMER_VIRTUAL, min(self.seconds, 2.0) if cpu_guard.hang_seen else self.seconds)
 
-    def __exit__(self, *a):
+    def __exit__(self, et, ev, tb):
         signal.setitimer(signal.ITIMER_VIRTUAL, 0)
+        if et is CpuHang:
+            cpu_guard.hang_seen = True
         return False
 
 
@@ -184,8 +188,18 @@ def pmap(fn, items, rep, workers=None, chunksize=1):
             fn(it, rep)
         return
     ctx = multiprocessing.get_context("fork")
+    stall = float(os.environ.get("VERIF_STALL_S", "3600"))
     with ctx.Pool(min(workers, len(items)), initializer=_pool_init) as pool:
-        for d in pool.imap_unordered(_worker_entry, [(fn, it) for it in items], chunksize):
+        it = pool.imap_unordered(_worker_entry, [(fn, it) for it in items], chunksize)
+        while True:
+            try:
+                d = it.next(timeout=stall)
+            except StopIteration:
+                break
+            except multiprocessing.TimeoutError:
+                # last line of defence against a dead-locked or spinning worker: a harness error, never a verdict
+                pool.terminate()
+                raise HarnessError("no work item of %s finished within %d s of wall-clock time (stalled worker)" % (fn.__name__, stall))
             rep.merge(d)
 
 
